@@ -174,6 +174,17 @@ func runConc(args []string) int {
 					sk, _ := shortK.ECPrivKey()
 					put("short.priv", hx(sk.Serialise()))
 				}
+				// decoders on malformed and well-formed strings at the same time (scratch objects recycled through a
+				// pool on an error path would be handed to two goroutines)
+				base58.Decode("not*base58")
+				put("b58.dec", hx(base58.Decode(base58.Encode(msg))))
+				_, _, _ = base58.CheckDecode("0OIl")
+				cd, cv, _ := base58.CheckDecode(base58.CheckEncode(msg, 7))
+				put("b58.cdec", hx(cd)+fmt.Sprint(cv))
+				_, _ = wif.DecodeWIF("not a wif")
+				_, _ = bip32.NewKeyFromString("xprv0OIl")
+				rk2, _ := bip32.NewKeyFromString(master.String())
+				put("xkey.reparse", rk2.String())
 				id, _ := chaincfg.HDPrivateKeyToPublicKeyID(chaincfg.MainNet.HDPrivateKeyID[:])
 				put("chaincfg", hx(id))
 				// two networks looked up / neutered at the same time by different goroutines (a shared
